@@ -31,11 +31,17 @@ def run_witnesses(rep, pid):
     rep.rule(rid, "witnesses: each stored one-instance-broken variant, applied to a scratch copy of the current tree, makes its rule fire "
                   "(behaviour-preserving variants must stay silent)", 0)
     res = []
+    todo = []
     for f in files:
         head = open(f).read(400)
         if ("expect: %s " % pid) not in head and not re.search(r"expect-silent:[^\n]*\b%s\b" % pid, head):
             continue
-        st, why = wit.run_witness(f, pid=pid if "expect-silent:" in head else None)
+        todo.append((f, pid if "expect-silent:" in head else None))
+    # each witness is a scratch copy plus a quick check in a process of its own: run them side by side
+    import concurrent.futures
+    with concurrent.futures.ThreadPoolExecutor(max_workers=min(12, os.cpu_count() or 4)) as ex:
+        outs = list(ex.map(lambda t: wit.run_witness(t[0], pid=t[1]), todo))
+    for (f, _p), (st, why) in zip(todo, outs):
         name = os.path.relpath(f, VERIF)
         res.append({"witness": name, "result": st, "why": why})
         if st in ("fired", "silent"):
